@@ -66,24 +66,33 @@ func (w *worker) tcpServer(kind string, streaming bool) *tcpServer {
 	if s, ok := w.tcp[key]; ok {
 		return s
 	}
-	addr := freePort()
-	tr := standard.NewTransporter
-	if kind == "netpoll" {
-		tr = netpoll.NewTransporter
-	}
-	h := server.New(server.WithHostPorts(addr), server.WithTransport(func(o *config.Options) network.Transporter { return tr(o) }),
-		server.WithStreamBody(streaming), server.WithDisablePrintRoute(true), server.WithExitWaitTime(100*time.Millisecond))
-	hf := func(c context.Context, ctx *app.RequestContext) { w.handle(ctx) }
-	h.Any("/*p", hf)
-	h.NoRoute(hf)
-	go h.Spin()
-	for i := 0; i < 200; i++ {
-		c, err := net.Dial("tcp", addr)
-		if err == nil {
-			c.Close()
+	var h *server.Hertz
+	var addr string
+	for attempt := 0; attempt < 8; attempt++ { // another process may grab the port between probing and binding
+		addr = freePort()
+		tr := standard.NewTransporter
+		if kind == "netpoll" {
+			tr = netpoll.NewTransporter
+		}
+		h = server.New(server.WithHostPorts(addr), server.WithTransport(func(o *config.Options) network.Transporter { return tr(o) }),
+			server.WithStreamBody(streaming), server.WithDisablePrintRoute(true), server.WithExitWaitTime(100*time.Millisecond))
+		hf := func(c context.Context, ctx *app.RequestContext) { w.handle(ctx) }
+		h.Any("/*p", hf)
+		h.NoRoute(hf)
+		go h.Spin()
+		up := false
+		for i := 0; i < 200 && !up; i++ {
+			c, err := net.Dial("tcp", addr)
+			if err == nil {
+				c.Close()
+				up = true
+			} else {
+				time.Sleep(10 * time.Millisecond)
+			}
+		}
+		if up {
 			break
 		}
-		time.Sleep(10 * time.Millisecond)
 	}
 	time.Sleep(20 * time.Millisecond)
 	s := &tcpServer{h: h, addr: addr}
@@ -114,7 +123,7 @@ func (w *worker) runTCP(c *Case, kind string) {
 	conn, err := net.Dial("tcp", srv.addr)
 	if err != nil {
 		final.Emit("DialFailed", vtrace.Rec{"err": err.Error()})
-		final.Emit("End", nil)
+		final.Emit("End", vtrace.Rec{"digest": "", "ref": ""})
 		return
 	}
 	go func() {
@@ -205,5 +214,5 @@ func (w *worker) runTCP(c *Case, kind string) {
 	}
 	final.Emit("Eof", nil)
 	final.Emit("ConnClosed", nil)
-	final.Emit("End", nil)
+	final.Emit("End", vtrace.Rec{"digest": "", "ref": ""})
 }
